@@ -3,23 +3,32 @@
 // Every case is a scenario: a pool capacity, a table of real *transaction.Transaction values
 // (chosen size via script padding, fees, ordinary or Notary+depositor signers, HighPriority,
 // Conflicts over earlier hashes, OracleResponse ids), a Feer stub with chosen balances and a
-// sequence of Add / Remove / RemoveStale / Verify calls on a real mempool.Pool.
-// After every call the observable state is printed (for the Lean driver) and the property's
-// invariant is recomputed from outside on the real pool (the oracle).
+// sequence of Add (with data) / Remove / RemoveStale / Verify / SetResendThreshold / StopSubscriptions
+// calls on a real mempool.Pool created with subscriptions and a metrics callback.
+// After every call the complete observable state is printed for the Lean driver - the list, the
+// look-ups (ContainsKey, HasConflicts, TryGetData, TryGetValue, Iterate), the unexported bookkeeping
+// read with reflect (deep.go: block stamps, conflicts, oracleResp, fees, feePerByte), the events the
+// call sent, the resend calls, Verify probes - and the property's invariant, the reverse indexes, fee
+// sums, events, resend rule, policy filter and metrics callback are recomputed from outside on the
+// real pool (oracle.go, deep.go). Some cases contain a phase of concurrent calls from several
+// goroutines (conc.go); the thorough tier re-runs those under the race detector (race.go).
 package main
 
 import (
+	"flag"
 	"fmt"
 	"math/big"
 	"math/bits"
+	"os"
 	"runtime"
-	"sync"
-	"time"
 	"sort"
 	"strconv"
 	"strings"
+	"sync"
+	"time"
 
 	"github.com/nspcc-dev/neo-go/pkg/core/mempool"
+	"github.com/nspcc-dev/neo-go/pkg/core/mempoolevent"
 	"github.com/nspcc-dev/neo-go/pkg/core/native/nativehashes"
 	"github.com/nspcc-dev/neo-go/pkg/core/transaction"
 	"github.com/nspcc-dev/neo-go/pkg/util"
@@ -53,26 +62,31 @@ const (
 	opBal
 	opHeight    // the Feer's BlockHeight changes (a block arrived)
 	opThreshold // SetResendThreshold
+	opSubsOff   // StopSubscriptions
+	opConc      // a phase of concurrent calls from several goroutines (conc.go)
 )
 
 type op struct {
 	kind  opKind
-	i     int   // transaction index
+	i     int    // transaction index
 	h     uint32 // opHeight: new height; opThreshold: resend threshold
-	fpb   int64 // stale: policy fee per byte
-	drops []int // stale: transactions for which isOK returns false
+	fpb   int64  // stale: policy fee per byte
+	drops []int  // stale: transactions for which isOK returns false
 	pk    payerKey
 	amt   int64
+	data  int    // add: the data argument (0 = Add is called without one)
+	conc  [][]op // opConc: the programs of the clients
 }
 
 type scenario struct {
-	name  string
-	cap   int
-	defs  []*txDef
-	bals  map[payerKey]int64
-	off   map[payerKey]*big.Int // huge-balance cases: added to every balance of the payer (tests uint256 truncation)
-	ops   []op
-	drift bool // balances change between refreshes: the solvency oracle is off, the tie stays on
+	name   string
+	cap    int
+	defs   []*txDef
+	bals   map[payerKey]int64
+	off    map[payerKey]*big.Int // huge-balance cases: added to every balance of the payer (tests uint256 truncation)
+	ops    []op
+	drift  bool // balances change between refreshes: the solvency oracle is off, the tie stays on
+	noSubs bool // the pool runs without subscriptions (no events)
 	// malformed: some transaction repeats a Conflicts hash (rejected by blockchain.verifyTxAttributes before
 	// it can reach Pool.Add, so outside the property's domain): only the tie and the panic oracle stay on
 	malformed bool
@@ -209,6 +223,12 @@ func errClass(err error) string {
 	return "err:other"
 }
 
+var (
+	concOnly = flag.Bool("conconly", false, "run only the cases that contain a concurrent phase (used for the -race run)")
+	noRace   = flag.Bool("norace", false, "thorough tier: skip the -race build and run")
+	raceLast = flag.Bool("racelast", false, "finish with the Verify||Verify scenario (only meaningful in a -race build)")
+)
+
 func main() {
 	f := hx.ParseFlags()
 	o := hx.NewOut(f.Out)
@@ -225,9 +245,29 @@ func main() {
 		} else {
 			sc = generate(prng.ForCase(f.Seed, k), o)
 		}
+		if *concOnly && !sc.hasConc() {
+			continue
+		}
 		o.Case(k)
 		runScenario(o, k, sc)
 	}
+	if *raceLast {
+		o.Close() // the scenario may end in the runtime's fatal "concurrent map writes": everything is on disk before
+		verifyVerifyScenario()
+		os.Exit(0)
+	}
+	if f.Tier == "thorough" && !*noRace && !*concOnly && f.Only < 0 {
+		raceRun(o, f)
+	}
+}
+
+func (sc *scenario) hasConc() bool {
+	for _, p := range sc.ops {
+		if p.kind == opConc {
+			return true
+		}
+	}
+	return false
 }
 
 // snapshot is everything the harness can see of the pool without changing it.
@@ -236,24 +276,95 @@ type snapshot struct {
 	count      int
 	has, hc    string
 	ver        string // Verify probes (filled after the invariant check)
-	dataOK     bool
 	unknownTxs int
+	gd, gv     string
+	data       map[int]int // TryGetData of the defined transactions that are found
+	it         []pair      // IterateVerifiedTransactions
+	deep       *deepState
+	events     []event
 }
 
+// String is the part of the observation that a failed Add must leave unchanged (fee cache entries with an
+// empty sum are left out: a failed Add may have cached the payer's balance).
 func (s *snapshot) String() string {
-	return fmt.Sprintf("txs=%s n=%d has=%s hc=%s", csv(s.list), s.count, s.has, s.hc)
+	return fmt.Sprintf("txs=%s n=%d has=%s hc=%s gd=%s gv=%s it=%s %s", csv(s.list), s.count, s.has, s.hc, s.gd, s.gv, pairs(s.it), s.deep.format(true))
+}
+
+func (s *snapshot) line(conc bool) string {
+	return fmt.Sprintf("txs=%s n=%d has=%s hc=%s gd=%s gv=%s it=%s %s ev=%s ver=%s", csv(s.list), s.count, s.has, s.hc, s.gd, s.gv, pairs(s.it),
+		s.deep.format(conc), eventsString(s.events, conc), s.ver)
+}
+
+type pair struct{ id, data int }
+
+func pairs(l []pair) string {
+	if len(l) == 0 {
+		return "-"
+	}
+	s := make([]string, len(l))
+	for i, x := range l {
+		s[i] = fmt.Sprintf("%d:%d", x.id, x.data)
+	}
+	return strings.Join(s, ",")
+}
+
+type event struct {
+	added bool
+	pair
+}
+
+func eventsString(evs []event, conc bool) string {
+	str := func(l []event) string {
+		if len(l) == 0 {
+			return "-"
+		}
+		s := make([]string, len(l))
+		for i, e := range l {
+			sign := "-"
+			if e.added {
+				sign = "+"
+			}
+			s[i] = fmt.Sprintf("%s%d:%d", sign, e.id, e.data)
+		}
+		return strings.Join(s, ",")
+	}
+	if !conc {
+		return str(evs)
+	}
+	// concurrent phase: TransactionRemoved events are sent inside the critical section (their order is the
+	// lock order), TransactionAdded events after the unlock (any order): removed in order | added sorted
+	var rem []event
+	var add []pair
+	for _, e := range evs {
+		if e.added {
+			add = append(add, e.pair)
+		} else {
+			rem = append(rem, e)
+		}
+	}
+	sort.Slice(add, func(i, j int) bool {
+		return add[i].id < add[j].id || add[i].id == add[j].id && add[i].data < add[j].data
+	})
+	return str(rem) + "|" + pairs(add)
+}
+
+func dataInt(d any) int {
+	if d == nil {
+		return 0
+	}
+	return d.(int)
 }
 
 // resendLog collects the calls of the pool's resend callback (made from a goroutine).
 type resendLog struct {
 	mu  sync.Mutex
-	ids []int
+	ids []pair
 	ch  chan struct{}
 }
 
-func (l *resendLog) add(i int) {
+func (l *resendLog) add(p pair) {
 	l.mu.Lock()
-	l.ids = append(l.ids, i)
+	l.ids = append(l.ids, p)
 	l.mu.Unlock()
 	select {
 	case l.ch <- struct{}{}:
@@ -261,19 +372,27 @@ func (l *resendLog) add(i int) {
 	}
 }
 
-// waitFor blocks until n calls were logged (or 300 ms passed).
+// resendTimeout: how long a refresh waits for the resend goroutine. Generous, because the machine may be
+// loaded; after the first miss (a run that fails anyway) the wait is cut so that the run still ends.
+var resendTimeout = 3 * time.Second
+
+// waitFor blocks until n calls were logged (or the timeout passed).
 func (l *resendLog) waitFor(n int) {
-	deadline := time.After(300 * time.Millisecond)
+	if l.len() >= n {
+		return
+	}
+	deadline := time.After(resendTimeout)
 	for l.len() < n {
 		select {
 		case <-l.ch:
 		case <-deadline:
+			resendTimeout = 30 * time.Millisecond
 			return
 		}
 	}
 }
-func (l *resendLog) len() int  { l.mu.Lock(); defer l.mu.Unlock(); return len(l.ids) }
-func (l *resendLog) take() []int {
+func (l *resendLog) len() int { l.mu.Lock(); defer l.mu.Unlock(); return len(l.ids) }
+func (l *resendLog) take() []pair {
 	l.mu.Lock()
 	defer l.mu.Unlock()
 	res := l.ids
@@ -291,9 +410,17 @@ func isDue(threshold, height, stamp uint32) bool {
 }
 
 type runner struct {
-	resent    *resendLog
-	threshold uint32
-	stampOf   map[int]uint32 // height at which a pooled transaction was added
+	resent         *resendLog
+	threshold      uint32
+	stampOf        map[int]uint32 // height at which a pooled transaction was added
+	dataOf         map[int]int    // data given to the Add that pooled it
+	maxPolicy      int64          // highest FeePerByte a RemoveStale has seen
+	subsOn         bool
+	evCh           chan mempoolevent.Event
+	content        map[int]int // replay of the event stream: pooled transaction -> data
+	metric         int         // value given to the metrics callback by the last call (-1 = not called)
+	metricExpected bool
+	conc           *concState // non-nil while a concurrent phase runs
 
 	o     *hx.Out
 	k     int
@@ -312,8 +439,31 @@ func (r *runner) fail(key, format string, a ...any) {
 	r.o.Fail(key, r.k, "[%s] "+format, append([]any{r.sc.name}, a...)...)
 }
 
+// drainEvents returns everything the pool has sent to the subscriber so far. The dispatcher goroutine handles
+// one message at a time, so once it has taken the (no-op) unsubscription of a channel that never subscribed,
+// every earlier event has been forwarded.
+func (r *runner) drainEvents() []event {
+	if !r.subsOn {
+		return nil
+	}
+	r.mp.UnsubscribeFromTransactions(make(chan mempoolevent.Event))
+	var res []event
+	for {
+		select {
+		case e := <-r.evCh:
+			i, ok := r.byH[e.Tx.Hash()]
+			if !ok {
+				i = -1
+			}
+			res = append(res, event{e.Type == mempoolevent.TransactionAdded, pair{i, dataInt(e.Data)}})
+		default:
+			return res
+		}
+	}
+}
+
 func (r *runner) snap() *snapshot {
-	s := &snapshot{dataOK: true}
+	s := &snapshot{data: map[int]int{}}
 	for _, t := range r.mp.GetVerifiedTransactions() {
 		i, ok := r.byH[t.Hash()]
 		if !ok {
@@ -323,12 +473,32 @@ func (r *runner) snap() *snapshot {
 		s.list = append(s.list, i)
 	}
 	s.count = r.mp.Count()
-	var has, hc strings.Builder
+	var has, hc, gv strings.Builder
+	var gd []string
 	for _, d := range r.sc.defs {
 		has.WriteByte(byte('0' + b2i(r.mp.ContainsKey(d.tx.Hash()))))
 		hc.WriteByte(byte('0' + b2i(r.mp.HasConflicts(d.tx, r.fe))))
+		data, ok := r.mp.TryGetData(d.tx.Hash())
+		if ok {
+			s.data[d.idx] = dataInt(data)
+			gd = append(gd, strconv.Itoa(dataInt(data)))
+		} else {
+			gd = append(gd, "x")
+		}
+		tv, ok := r.mp.TryGetValue(d.tx.Hash())
+		gv.WriteByte(byte('0' + b2i(ok && tv == d.tx)))
 	}
-	s.has, s.hc = has.String(), hc.String()
+	s.has, s.hc, s.gv, s.gd = has.String(), hc.String(), gv.String(), strings.Join(gd, ",")
+	r.mp.IterateVerifiedTransactions(func(t *transaction.Transaction, data any) bool {
+		i, ok := r.byH[t.Hash()]
+		if !ok {
+			i = -1
+		}
+		s.it = append(s.it, pair{i, dataInt(data)})
+		return true
+	})
+	s.deep = r.readDeep()
+	s.events = r.drainEvents()
 	return s
 }
 
@@ -352,13 +522,27 @@ func protect(f func()) (panicked bool) {
 }
 
 func runScenario(o *hx.Out, k int, sc *scenario) {
-	r := &runner{o: o, k: k, sc: sc, byH: map[util.Uint256]int{}, fails: map[string]bool{}, resent: &resendLog{ch: make(chan struct{}, 1024)}, stampOf: map[int]uint32{}}
+	r := &runner{o: o, k: k, sc: sc, byH: map[util.Uint256]int{}, fails: map[string]bool{}, resent: &resendLog{ch: make(chan struct{}, 1024)},
+		stampOf: map[int]uint32{}, dataOf: map[int]int{}, content: map[int]int{}, evCh: make(chan mempoolevent.Event, 1<<14)}
 	r.fe = &feer{bals: map[payerKey]int64{}, off: sc.off, acc: map[util.Uint160]int{}}
 	for i := 0; i < 64; i++ {
 		r.fe.acc[account(i)] = i
 	}
 	o.Line(fmt.Sprintf("new %d", sc.cap), "ok")
-	r.mp = mempool.New(sc.cap, false, nil)
+	r.mp = mempool.New(sc.cap, true, r.metricsCb)
+	if !sc.noSubs {
+		r.mp.RunSubscriptions()
+		r.mp.SubscribeForTransactions(r.evCh)
+		r.subsOn = true
+		o.Line("subs 1", "ok")
+		defer func() {
+			if r.subsOn {
+				r.mp.StopSubscriptions()
+			}
+		}()
+	} else {
+		o.Count("case:no-subscriptions")
+	}
 	for _, d := range sc.defs {
 		build(d, sc.defs)
 		r.byH[d.tx.Hash()] = d.idx
@@ -384,17 +568,24 @@ func runScenario(o *hx.Out, k int, sc *scenario) {
 		var line, res string
 		var addErr error
 		var panicked bool
+		r.metric = -1
 		switch p.kind {
 		case opHeight:
 			r.fe.h = p.h
 			o.Line(fmt.Sprintf("height %d", p.h), "ok")
 			continue
 		case opThreshold:
-			r.threshold = p.h
-			log := r.resent
-			r.mp.SetResendThreshold(p.h, func(t *transaction.Transaction, _ any) { log.add(r.byH[t.Hash()]) })
-			o.Line(fmt.Sprintf("threshold %d", p.h), "ok")
+			r.setThreshold(p.h)
 			o.Count(fmt.Sprintf("threshold:%d", p.h))
+			continue
+		case opSubsOff:
+			if r.subsOn {
+				r.drainEvents()
+				r.mp.StopSubscriptions()
+				r.subsOn = false
+				o.Line("subs 0", "ok")
+				o.Count("op:subs-off")
+			}
 			continue
 		case opBal:
 			r.fe.bals[p.pk] = p.amt
@@ -415,10 +606,24 @@ func runScenario(o *hx.Out, k int, sc *scenario) {
 				return
 			}
 			continue
+		case opConc:
+			after := r.runConc(p.conc)
+			if after == nil {
+				return
+			}
+			canon += "|conc:" + csv(after.list)
+			before = after
+			continue
 		case opAdd:
-			line = fmt.Sprintf("add %d", p.i)
+			line = fmt.Sprintf("add %d %d", p.i, p.data)
 			d := sc.defs[p.i]
-			panicked = protect(func() { addErr = r.mp.Add(d.tx, r.fe, d.idx) })
+			panicked = protect(func() {
+				if p.data != 0 {
+					addErr = r.mp.Add(d.tx, r.fe, p.data)
+				} else {
+					addErr = r.mp.Add(d.tx, r.fe)
+				}
+			})
 			res = errClass(addErr)
 			o.Count("op:add")
 			o.Count("add:" + res)
@@ -446,9 +651,19 @@ func runScenario(o *hx.Out, k int, sc *scenario) {
 			o.Line(line, "panic")
 			return
 		}
+		if p.kind == opAdd && addErr == nil {
+			r.stampOf[p.i] = r.fe.h
+			r.dataOf[p.i] = p.data
+		}
+		r.metricExpected = p.kind == opRemove || (p.kind == opAdd && addErr == nil)
 		var after *snapshot
-		var ver string
-		if protect(func() { after = r.snap(); r.checkInv(line, after); ver = r.verifyProbes(); after.ver = ver }) {
+		if protect(func() {
+			after = r.snap()
+			r.checkInv(line, after)
+			r.checkDeep(line, after)
+			r.checkEvents(line, after, false)
+			after.ver = r.verifyProbes()
+		}) {
 			r.fail("panic", "probe after %s panicked", line)
 			o.Line(line, "panic")
 			return
@@ -456,38 +671,59 @@ func runScenario(o *hx.Out, k int, sc *scenario) {
 		if p.kind == opStale {
 			// the resend callback runs in a goroutine started by RemoveStale: wait for as many calls as the
 			// documented rule predicts for the kept items (a surplus or a late call shows up at the next refresh)
-			want := 0
+			var want []pair
 			for _, i := range after.list {
 				if i >= 0 && isDue(r.threshold, r.fe.h, r.stampOf[i]) {
-					want++
+					want = append(want, pair{i, r.dataOf[i]})
 				}
 			}
-			r.resent.waitFor(want)
-			if want == 0 && r.threshold != 0 {
+			r.resent.waitFor(len(want))
+			if len(want) == 0 && r.threshold != 0 {
 				runtime.Gosched()
 			}
 			rs := r.resent.take()
-			res = "ok rs=" + csv(rs)
+			res = "ok rs=" + pairs(rs)
+			if pairs(rs) != pairs(want) {
+				r.fail("resend", "after %s at height %d (threshold %d): the resend callback got %s, the items whose age is threshold*2^k are %s",
+					line, r.fe.h, r.threshold, pairs(rs), pairs(want))
+			}
 			if len(rs) > 0 {
 				o.Count("stale:resent-some")
 				o.Add("stale:resent-items", len(rs))
-				for _, i := range rs {
-					if len(sc.defs[i].conflicts) > 0 {
+				for _, x := range rs {
+					if x.id >= 0 && len(sc.defs[x.id].conflicts) > 0 {
 						o.Count("stale:resent-with-conflicts")
+					}
+					if x.id >= 0 {
+						if age := r.fe.h - r.stampOf[x.id]; age > r.threshold {
+							o.Count("stale:resent-at-2^k>1")
+						}
+					}
+				}
+			}
+			// policy: a refresh that raises the pool's fee-per-byte policy keeps only transactions that pay it
+			if p.fpb > r.maxPolicy {
+				r.maxPolicy = p.fpb
+				o.Count("stale:policy-raised")
+				if !sc.malformed {
+					for _, i := range after.list {
+						if i >= 0 && sc.defs[i].tx.FeePerByte() < p.fpb {
+							r.fail("policy", "after %s: the policy was raised to %d but %d with fee per byte %d stays pooled", line, p.fpb, i, sc.defs[i].tx.FeePerByte())
+						}
 					}
 				}
 			}
 		}
-		if p.kind == opAdd && addErr == nil {
-			r.stampOf[p.i] = r.fe.h
-		}
-		o.Line(line, fmt.Sprintf("%s ; %s ver=%s", res, after, ver))
+		o.Line(line, fmt.Sprintf("%s ; %s", res, after.line(false)))
 		if p.kind == opAdd {
 			r.checkAdd(line, sc.defs[p.i], addErr, before, after)
 		}
 		canon += fmt.Sprintf("|%s>%s:%s", line, res, csv(after.list))
 		if len(after.list) == sc.cap {
 			o.Count("state:full")
+		}
+		if len(after.events) > 1 {
+			o.Count("events:several-in-one-call")
 		}
 		if p.kind == opStale && len(after.list) < len(before.list) {
 			o.Count("stale:dropped-some")
@@ -515,4 +751,17 @@ func runScenario(o *hx.Out, k int, sc *scenario) {
 	if k < 3 {
 		o.Sample(canon)
 	}
+}
+
+func (r *runner) setThreshold(h uint32) {
+	r.threshold = h
+	log := r.resent
+	r.mp.SetResendThreshold(h, func(t *transaction.Transaction, data any) {
+		i, ok := r.byH[t.Hash()]
+		if !ok {
+			i = -1
+		}
+		log.add(pair{i, dataInt(data)})
+	})
+	r.o.Line(fmt.Sprintf("threshold %d", h), "ok")
 }
